@@ -29,6 +29,7 @@ CONSTANTS Base, Count,        \* fixed window b, c
           PreSizes,           \* size of the content found at first build: -1 = no file, 0 = empty file, n
           MaxRec, MaxFaults, MaxCrash, MaxRestart, MaxObst,
           MaxEncFail,         \* encoder failures (the encoder writes part of the record, then returns an error)
+          OsFail,             \* TRUE: records are handed to the file in one write call each, which the operating system may cut short
           Gz,                 \* the archive pattern ends in .gz: the final step of a rotation compresses instead of renaming
           MaxOverlap,         \* reconfigurations: a successor appender built while its predecessor is alive
           BufFloor,           \* whole units that fit into the 1 KiB BufWriter (2 for 400-byte units, 64 and more for small ones)
@@ -81,8 +82,14 @@ HighestUsed == IF \E i \in Window : disk.arch[i].k = "file" THEN CHOOSE i \in Wi
 ArchPos == IF ~IsWindow THEN <<>>
            ELSE [j \in 1..(HighestUsed - Base + 1) |-> IF disk.arch[Base + j - 1].k = "file" THEN disk.arch[Base + j - 1].d ELSE <<>>]
 
-Snap == [act |-> [k |-> disk.act.k, d |-> [j \in 1..Len(disk.act.d) |-> disk.act.d[j].id]],
-         arch |-> [x \in Idx |-> [k |-> disk.arch[x].k, d |-> [j \in 1..Len(disk.arch[x].d) |-> disk.arch[x].d[j].id]]]]
+\* record ids of a file as a reader sees them: a torn part directly followed by its kept remainder is the whole record
+RECURSIVE Merge(_)
+Merge(d) == IF d = <<>> THEN <<>>
+            ELSE IF Len(d) >= 2 /\ d[1].id >= 100000 /\ d[1].id < 200000 /\ d[2].id = d[1].id + 100000
+                 THEN <<d[1].id - 100000>> \o Merge(SubSeq(d, 3, Len(d)))
+                 ELSE <<d[1].id>> \o Merge(Tail(d))
+Snap == [act |-> [k |-> disk.act.k, d |-> Merge(disk.act.d)],
+         arch |-> [x \in Idx |-> [k |-> disk.arch[x].k, d |-> Merge(disk.arch[x].d)]]]
 Log(e) == IF Hist THEN Append(hist, e) ELSE hist
 
 NoPreArch == {{}}
@@ -221,19 +228,36 @@ Write ==
 \* anything else stays in the buffer until the next flush (the next record, a rotation, the drop of the appender);
 \* process death loses the buffer.  The part is itself a well-formed record [id, k], so that files stay parseable;
 \* k = cur.sz is "everything written, then Err".
-EncFail(k) ==
+\* os = TRUE: it is not the encoder that fails but the file: the encoder hands the whole record over in one write call
+\* that is at least as large as the BufWriter (so it goes to the file directly, after whatever was buffered), and the
+\* operating system takes only k units of it (disk quota, file size limit).  write_all offers the remainder again: if
+\* that is smaller than the BufWriter it is buffered without touching the file, the flush then fails, append returns
+\* the error - and the BufWriter keeps the remainder and completes the record with the next flush; if it is not
+\* smaller it goes to the file directly, fails, and only the torn part exists.  Everything the writer accepted is
+\* counted.  On disk the torn part is written as id + 100000 and the kept remainder as id + 200000; next to each other
+\* they are the whole record (Merge).
+EncFail(k, os) ==
   /\ pc = "write" /\ nEnc < MaxEncFail /\ k <= cur.sz
+  /\ os => (OsFail /\ cur.sz > BufFloor /\ k >= 1 /\ k < cur.sz)
   /\ nEnc' = nEnc + 1
-  /\ LET part == [id |-> cur.id, sz |-> k]
-         flushFirst == k + SumSz(writer.buf) > BufFloor
-         direct == k > BufFloor
-         kept == IF flushFirst THEN <<>> ELSE writer.buf
-         toDisk == (IF flushFirst THEN writer.buf ELSE <<>>) \o (IF direct THEN <<part>> ELSE <<>>)
-     IN /\ writer' = [writer EXCEPT !.len = @ + k, !.buf = IF direct \/ k = 0 THEN kept ELSE Append(kept, part)]
-        /\ disk' = IF toDisk = <<>> THEN disk ELSE [disk EXCEPT !.act.d = @ \o toDisk]
-        /\ W' = W \o toDisk /\ refAct' = refAct \o toDisk
+  /\ IF os
+     THEN LET torn == [id |-> cur.id + 100000, sz |-> k]
+              tailKept == cur.sz - k <= BufFloor
+              toDisk == writer.buf \o <<torn>>
+          IN /\ writer' = [writer EXCEPT !.len = @ + (IF tailKept THEN cur.sz ELSE k),
+                                           !.buf = IF tailKept THEN <<[id |-> cur.id + 200000, sz |-> cur.sz - k]>> ELSE <<>>]
+             /\ disk' = [disk EXCEPT !.act.d = @ \o toDisk]
+             /\ W' = W \o toDisk /\ refAct' = refAct \o toDisk
+     ELSE LET part == [id |-> cur.id, sz |-> k]
+              flushFirst == k + SumSz(writer.buf) > BufFloor
+              direct == k > BufFloor
+              kept == IF flushFirst THEN <<>> ELSE writer.buf
+              toDisk == (IF flushFirst THEN writer.buf ELSE <<>>) \o (IF direct THEN <<part>> ELSE <<>>)
+          IN /\ writer' = [writer EXCEPT !.len = @ + k, !.buf = IF direct \/ k = 0 THEN kept ELSE Append(kept, part)]
+             /\ disk' = IF toDisk = <<>> THEN disk ELSE [disk EXCEPT !.act.d = @ \o toDisk]
+             /\ W' = W \o toDisk /\ refAct' = refAct \o toDisk
   /\ pc' = "idle" /\ res' = "err"
-  /\ hist' = Log([op |-> "append", id |-> cur.id, sz |-> cur.sz, res |-> "encfail", part |-> k,
+  /\ hist' = Log([op |-> "append", id |-> cur.id, sz |-> cur.sz, res |-> "encfail", part |-> k, os |-> os,
                   buffered |-> SumSz(writer'.buf), disk |-> Snap'])
   /\ UNCHANGED <<cur, ri, after, used, acked, nextId, fault, nFaults, nCrash, nRestart, nObst, nOverlap, ref, rolls>>
 
@@ -322,7 +346,7 @@ Stop ==
   /\ UNCHANGED <<cur, ri, after, used, acked, nextId, fault, nFaults, nCrash, nObst, nEnc, nOverlap, ref, rolls>>
 
 Next == (\E s \in Sizes : Start(s)) \/ Build \/ GetWriter1 \/ PreTrig \/ RotStep \/ GetWriter2 \/ Write
-        \/ PostTrig \/ Ack \/ (\E k \in {0, 1, cur.sz} : EncFail(k)) \/ (\E s \in Sizes : Overlap(s)) \/ ArmFault \/ Obstruct \/ Unobstruct \/ Crash \/ Stop
+        \/ PostTrig \/ Ack \/ (\E k \in {0, 1, cur.sz} : EncFail(k, FALSE)) \/ (\E k \in {1, 2} : EncFail(k, TRUE)) \/ (\E s \in Sizes : Overlap(s)) \/ ArmFault \/ Obstruct \/ Unobstruct \/ Crash \/ Stop
 Spec == Init /\ [][Next]_vars
 
 Quiescent == pc \in {"idle", "down"}
